@@ -81,12 +81,14 @@ def strOk (flow : Bool) (root : Bool) (s : Str) : SStyle → Bool
       && (splitNl s).all (fun l => l.head? != some ' ') && s.head? != some '\n'
       && folds.all (foldOk s) && folds.Pairwise (· < ·) = true
 
-/-- A plain `<<` key is excluded: the loader documents YAML 1.1 merge-key support for it, which the
-1.2 core schema does not have (genuinely ambiguous presentation). -/
+/-- A `<<` key is excluded in every style: the loader documents YAML 1.1 merge-key support, and —
+following mikefarah/yq, pinned by the repository's own test `test_merge_key_quoted_still_merges` —
+applies it to a quoted `"<<"` as well; the 1.2 core schema has no merge keys, so the presentation is
+genuinely ambiguous. -/
 def keyOk (flow : Bool) (k : Str) : KStyle → Bool
   | .plain => plainSafe flow k && resolvePlain k == .str && k != "<<".toList
-  | .single => k.all isPrintable
-  | .double _ _ => true
+  | .single => k.all isPrintable && k != "<<".toList
+  | .double _ _ => k != "<<".toList
 
 mutual
 /-- Does the rendered node end with a keep-chomped block scalar (then a following blank line would
